@@ -84,13 +84,55 @@ def rules_family(rng, n):
     return stats, fails, []
 
 
+def selection_family(rng, n):
+    """the waiver options together with use_shapes / focus_nodes: a shape the validator runs directly is top-level however its
+    focus nodes were chosen"""
+    from rdflib import URIRef
+    stats, fails = {"waiver_with_selection_cases": 0}, []
+    for _ in range(n):
+        b = EC.base_case(rng, p_deact=0.05, p_focused=0.6, tmpls=[S.tmpl_severity, S.tmpl_nested_severity, S.tmpl_custom])
+        iris = [x for x in b["nodes"] if isinstance(x, URIRef)]
+        named = [s["id"] for s in b["shapes"] if isinstance(s["id"], URIRef) and (s["targets"]["nodes"] or s["targets"]["classes"])]
+        if not named or not iris:
+            continue
+        sel = {}
+        how = rng.choice(["use_shapes", "focus_nodes", "both", "both"])
+        if how in ("use_shapes", "both"):
+            sel["use_shapes"] = [str(rng.choice(named))]
+        if how in ("focus_nodes", "both"):
+            sel["focus_nodes"] = [str(x) for x in rng.sample(iris, rng.randint(1, min(3, len(iris))))]
+        grp = [S.run_validate(b["data"], b["sg"], **dict(o, **sel)) for o in OPTS]
+        stats["waiver_with_selection_cases"] += 1
+        if any(o[0] != "ok" for o in grp):
+            if len({o[0:2] for o in grp}) != 1:
+                fails.append({"what": "outcome kind differs between severity options (with %r): %r" % (sel, [o[0:2] for o in grp]), "shapes_ttl": b["sg"].serialize(format="turtle"), "data_nt": sorted(" ".join(x.n3() for x in t) for t in b["data"])})
+            continue
+        base = EC.keys(grp[0])
+        for o, opt in zip(grp, OPTS):
+            waived = ({SH.Info} if opt.get("allow_infos") else set()) | ({SH.Info, SH.Warning} if opt.get("allow_warnings") else set())
+            if EC.keys(o) != base:
+                fails.append({"what": "%r changed the reported results (selection %r)" % (opt, sel), "shapes_ttl": b["sg"].serialize(format="turtle"), "data_nt": sorted(" ".join(x.n3() for x in t) for t in b["data"])})
+                break
+            if o[1] != all(r[4] in waived for r in o[2]):
+                fails.append({"what": "verdict %s under %r with selection %r, but every-top-level-result-waived is %s (severities %s)" % (o[1], opt, sel, not o[1], sorted({str(r[4]).rsplit('#')[-1] for r in o[2]})),
+                              "shapes_ttl": b["sg"].serialize(format="turtle"), "data_nt": sorted(" ".join(x.n3() for x in t) for t in b["data"])})
+                break
+    return stats, fails, []
+
+
+def both_families(seed, tier):
+    a = rules_family(F.rng_for(seed, PROP + "/rules"), 60 if tier == "quick" else 900)
+    b = selection_family(F.rng_for(seed, PROP + "/selection"), 60 if tier == "quick" else 900)
+    return dict(a[0], **b[0]), a[1] + b[1], a[2] + b[2]
+
+
 def main(tier, seed, replay=None):
     rng = F.rng_for(seed, PROP)
     cases = gen_cases(rng, tier)
     return EC.standard_main(
         PROP, ["Props/C11.v"], tier, seed, cases,
-        rule="case = random nested shapes graph with sh:severity in {absent, Violation, Warning, Info, custom} at every level x data x the four allow_infos/allow_warnings combinations; relation checked on the real code: same result multiset, verdict = all top-level results waived, monotone; each run also compared with the model; advanced mode: rule sets whose sh:condition shapes (and the shapes they feed) carry waivable severities x the four combinations: same results, verdict = all top-level results waived",
+        rule="case = random nested shapes graph with sh:severity in {absent, Violation, Warning, Info, custom} at every level x data x the four allow_infos/allow_warnings combinations; relation checked on the real code: same result multiset, verdict = all top-level results waived, monotone; each run also compared with the model; advanced mode: rule sets whose sh:condition shapes (and the shapes they feed) carry waivable severities x the four combinations: same results, verdict = all top-level results waived; the four combinations together with use_shapes / focus_nodes selections",
         what="results/verdict differ from the model of the severity waiver (Props.C11)",
         metamorphic=metamorphic,
-        extra_checks=lambda: rules_family(F.rng_for(seed, PROP + "/rules"), 60 if tier == "quick" else 900),
+        extra_checks=lambda: both_families(seed, tier),
     )
